@@ -6,8 +6,9 @@ import (
 	"math/rand/v2"
 	"net"
 	"regexp"
-	"runtime"
+	"runtime/metrics"
 	"strings"
+	"sync/atomic"
 	"testing"
 	"time"
 
@@ -36,7 +37,7 @@ import (
 func TestC26(t *testing.T) {
 	m := mon.New(t, "C26")
 	defer m.Done()
-	m.Rule("mode = i mod #modes over every non-AEAD cipher x MAC and each AEAD cipher; streams of 1..5 packets written by the real writer (random K/H/session id, hash and start seq incl. wrap). bitflip: EVERY single-bit flip of the first packet (first-packet payload 1..120 quick / ..300 thorough) + 4 boundary bytes x 8 bits of each later packet; trunc: EVERY cut point of a 1..3 packet stream; pktfault: drop/dup/swap/replay from other direction/replay from other keys/inject/overwrite/append/multi-byte corruption; hostile: frames protected by sshref with valid keys but declared packet_length in {0..16, maxPacket-1..maxPacket+16, 2^31-1, 2^31, 2^32-16..2^32-1} and padding_length in {0..4, 255, length-1..length+1}, and fully random streams; none: random/crafted plaintext streams into the real client transport before key exchange. Verdict per the first-difference rule (see test doc). distinct = (fault kind, region, framing class); non-trivial = a tampered stream reached the real reader")
+	m.Rule("mode = i mod #modes over every non-AEAD cipher x MAC and each AEAD cipher; streams of 1..5 packets written by the real writer (random K/H/session id, hash and start seq incl. wrap). bitflip: EVERY single-bit flip of the first packet (first-packet payload 1..120 quick / ..300 thorough) + 4 boundary bytes x 8 bits of each later packet; trunc: EVERY cut point of a 1..3 packet stream; pktfault: drop/dup/swap/replay from other direction/replay from other keys/inject/overwrite/append/multi-byte corruption; hostile: frames protected by sshref with valid keys but declared packet_length in {0..32, maxPacket-16..maxPacket+16, 2*maxPacket, 2^31-1, 2^31, 2^32-20..2^32-1} over a short body, boundary lengths with padding_length in {0..5, 255, length-2..length+1}, legal lengths with illegal padding_length, oversized but otherwise well-formed packets (first legal length above maxPacket, +0..2000, 2x..8x), and fully random streams; none: random/crafted plaintext streams into the real client transport before key exchange. Verdict per the first-difference rule (see test doc). distinct = (fault kind, region, framing class); non-trivial = a tampered stream reached the real reader")
 	m.Assume("which bytes are authenticated is taken from RFC 4253 §6.4, RFC 5647 §7, OpenSSH PROTOCOL (EtM, chacha20poly1305): all of them; forging a 96..512-bit MAC by chance is treated as impossible")
 	m.Assume("allocation is measured with runtime.MemStats.TotalAlloc around a single ReadPacket call in a single-goroutine test")
 
@@ -52,7 +53,7 @@ func TestC26(t *testing.T) {
 	m.Cases("pktfault", M*m.N(20, 600), func(i int64, r *rand.Rand) {
 		c26PktFault(m, modes[int(i)%M], int(i)/M, r)
 	})
-	m.Cases("hostile", M*m.N(16, 240), func(i int64, r *rand.Rand) {
+	m.Cases("hostile", M*m.N(20, 250), func(i int64, r *rand.Rand) {
 		c26Hostile(m, modes[int(i)%M], int(i)%M, int(i)/M, r)
 	})
 	m.Cases("none", m.N(64, 1200), func(i int64, r *rand.Rand) {
@@ -65,6 +66,7 @@ func TestC26(t *testing.T) {
 	m.Gate("flips:padlen", M*8, "bit flips in the padding length")
 	m.Gate("flips:mac", M*8*12, "bit flips in the MAC/tag")
 	m.Gate("badpad_frames", M*4, "validly MACed frames with illegal padding_length in every mode")
+	m.Gate("oversized_wellformed_frames", M*4, "oversized but otherwise valid packets (only the length limit can reject) in every mode")
 	m.Gate("oversized_length_frames", M*4, "declared packet_length > maxPacket delivered to every mode")
 	m.Gate("none_oversized_length", 8, "declared packet_length > maxPacket delivered to the none cipher")
 	for _, f := range pktFaults {
@@ -170,6 +172,10 @@ func (s *wstream) judge(m *mon.M, mut []byte, fault string) bool {
 		m.Count("noop_faults", 1)
 		return true
 	}
+	if hugeAllocSeen.Load() {
+		m.Count("skipped_after_huge_allocation", 1)
+		return false
+	}
 	n := s.n()
 	j := n
 	for k := 0; k < n; k++ {
@@ -186,7 +192,16 @@ func (s *wstream) judge(m *mon.M, mut []byte, fault string) bool {
 	cr := &countingReader{b: mut}
 	m.Eval()
 	for pos := 0; pos <= j; pos++ {
-		got, err := rd.ReadPacket(s.start+uint32(pos), cr)
+		var got []byte
+		var err error
+		alloc := allocDelta(func() { got, err = rd.ReadPacket(s.start+uint32(pos), cr) })
+		if alloc > hugeAllocLimit {
+			w := s.witness(mut, fault)
+			w["position"], w["first_difference_offset"], w["alloc_bytes"] = pos, d, alloc
+			m.Violation("huge-allocation-on-tampered-stream:"+cls, w)
+			hugeAllocSeen.Store(true)
+			return false
+		}
 		if pos < j {
 			if err != nil || !bytes.Equal(got, s.payloads[pos]) {
 				w := s.witness(mut, fault)
@@ -395,13 +410,27 @@ func c26PktFault(m *mon.M, p pair, round int, r *rand.Rand) {
 
 // ---- hostile frames: valid keys, malformed framing ----
 
+// allocDelta returns the heap bytes allocated while fn ran
+// (runtime/metrics "/gc/heap/allocs:bytes"; large objects are accounted
+// immediately, which is all the verdict needs).
 func allocDelta(fn func()) uint64 {
-	var a, b runtime.MemStats
-	runtime.ReadMemStats(&a)
+	smp := []metrics.Sample{{Name: "/gc/heap/allocs:bytes"}}
+	metrics.Read(smp)
+	a := smp[0].Value.Uint64()
 	fn()
-	runtime.ReadMemStats(&b)
-	return b.TotalAlloc - a.TotalAlloc
+	metrics.Read(smp)
+	return smp[0].Value.Uint64() - a
 }
+
+// hugeAllocLimit: no single ReadPacket call needs more than maxPacket plus a
+// MAC; 16 MiB (64x) is far outside anything a correct reader does.
+const hugeAllocLimit = 16 << 20
+
+// hugeAllocSeen is set once a reader allocated more than hugeAllocLimit for
+// one packet. The violation is recorded; the rest of this process's cases are
+// skipped (counted) because repeating multi-GiB allocations only thrashes the
+// shared machine.
+var hugeAllocSeen atomic.Bool
 
 var hostileLens = []uint32{0, 1, 2, 3, 4, 5, 6, 7, 8, 11, 12, 15, 16, 20, 24, 28, 32,
 	maxPacket - 16, maxPacket - 4, maxPacket - 1, maxPacket}
@@ -409,6 +438,10 @@ var oversizeLens = []uint32{maxPacket + 1, maxPacket + 4, maxPacket + 8, maxPack
 	1<<31 - 1, 1 << 31, 1<<31 + 16, 1<<32 - 20, 1<<32 - 16, 1<<32 - 5, 1<<32 - 4, 1<<32 - 1}
 
 func c26Hostile(m *mon.M, p pair, modeIdx, round int, r *rand.Rand) {
+	if hugeAllocSeen.Load() {
+		m.Count("skipped_after_huge_allocation", 1)
+		return
+	}
 	kex := newKex(r, kexHashes[round%3])
 	c2s := round%2 == 0
 	cls := p.class()
@@ -440,23 +473,29 @@ func c26Hostile(m *mon.M, p pair, modeIdx, round int, r *rand.Rand) {
 		m.Inconclusive("sshref writer: " + err.Error())
 		return
 	}
-	// round mod 4: 0 oversized; 1 boundary lengths; 2 legal aligned length
-	// with an illegal padding_length (reaches the padding logic behind a
-	// valid MAC); 3 alternately oversized / fully random stream
-	kind := round % 4
+	// round mod 5:
+	//  0 oversized declared length, short body (allocation / consumption)
+	//  1 boundary lengths 0..32, maxPacket-16..maxPacket with odd paddings
+	//  2 legal aligned length with an illegal padding_length (reaches the
+	//    padding logic behind a valid MAC)
+	//  3 oversized but otherwise perfectly well-formed packet (full body,
+	//    legal padding, valid MAC): only the length limit can reject it
+	//  4 fully random stream
+	kind := round % 5
+	sub := round / 5
 	var declared uint32
 	var body []byte
 	desc := ""
-	switch {
-	case kind == 0 || (kind == 3 && (round/4)%2 == 1):
-		declared = oversizeLens[(round/4*2+kind+modeIdx)%len(oversizeLens)]
+	switch kind {
+	case 0:
+		declared = oversizeLens[(sub+modeIdx)%len(oversizeLens)]
 		if r.IntN(4) == 0 {
 			declared = maxPacket + 1 + uint32(r.IntN(64))
 		}
 		body = mon.Bytes(r, 16*(1+r.IntN(64))-4+4*r.IntN(2)) // 4+len multiple of 16 or not
 		desc = "oversized"
-	case kind == 1:
-		declared = hostileLens[(round/4+modeIdx)%len(hostileLens)]
+	case 1:
+		declared = hostileLens[(sub+modeIdx)%len(hostileLens)]
 		n := int(declared)
 		if declared >= maxPacket-16 {
 			if r.IntN(2) == 0 {
@@ -473,14 +512,34 @@ func c26Hostile(m *mon.M, p pair, modeIdx, round int, r *rand.Rand) {
 			body[0] = byte(pv)
 		}
 		desc = "boundary"
-	case kind == 2:
+	case 2:
 		pl := r.IntN(41)
 		n := 1 + pl + md.MinPadding(pl)
 		declared = uint32(n)
 		body = mon.Bytes(r, n)
 		bad := []int{0, 1, 2, 3, n - 2, n - 1, n, n + 1, 255}
-		body[0] = byte(bad[(round/4+modeIdx)%len(bad)])
+		body[0] = byte(bad[(sub+modeIdx)%len(bad)])
 		desc = "badpad"
+	case 3:
+		var L int
+		switch sub % 4 {
+		case 0, 2:
+			// the smallest legal packet_length above maxPacket
+			for L = maxPacket - 300; 1+L+md.MinPadding(L) <= maxPacket; L++ {
+			}
+			if sub%4 == 2 {
+				L += r.IntN(3) * md.Block
+			}
+		case 1:
+			L = maxPacket + r.IntN(2000)
+		case 3:
+			L = mon.Pick(r, []int{2 * maxPacket, 3*maxPacket + 17, 8*maxPacket - 100})
+		}
+		pad := md.MinPadding(L)
+		body = mon.Bytes(r, 1+L+pad)
+		body[0] = byte(pad)
+		declared = uint32(len(body))
+		desc = "oversized-wellformed"
 	default:
 		desc = "random"
 	}
@@ -532,13 +591,20 @@ func c26Hostile(m *mon.M, p pair, modeIdx, round int, r *rand.Rand) {
 	}
 	m.Distinct(fmt.Sprintf("hostile %s %s", desc, cls))
 	switch desc {
-	case "oversized":
+	case "oversized", "oversized-wellformed":
 		m.Count("oversized_length_frames", 1)
+		if desc == "oversized-wellformed" {
+			m.Count("oversized_wellformed_frames", 1)
+			if int(declared)-maxPacket <= 32 {
+				m.Count("oversized_wellformed_first_length_above_limit", 1)
+			}
+		}
 		if rdErr == nil {
 			m.Violation("oversized-length-accepted:"+cls, wit())
 		}
-		if alloc > 16<<20 {
+		if alloc > hugeAllocLimit {
 			m.Violation("oversized-length-allocates:"+cls, wit())
+			hugeAllocSeen.Store(true)
 		}
 		if consumed > maxPacket+4+64+32 {
 			m.Violation("oversized-length-consumes:"+cls, wit())
